@@ -368,6 +368,19 @@ pub fn wl_c19(seed: u64, tier: &str) -> Vec<Vec<Value>> {
             let mut ops = vec![];
             for (i, cut) in cuts.iter().enumerate() {
                 ops.push(st("reset"));
+                // every cut with a random value; points additionally with the identity
+                if *ty != "Fr" && *ty != "Fq12" {
+                    let idv = match *ty {
+                        "G1" => proj_to_j(&G1::zero()),
+                        "G1Affine" => aff_to_j(&G1::zero().into_affine()),
+                        "G2" => proj_to_j(&G2::zero()),
+                        _ => aff_to_j(&G2::zero().into_affine()),
+                    };
+                    ops.push(st_write(ty, idv, *c, "truncation-identity"));
+                    ops.push(json!({"op": "st", "fn": "flip", "trunc": cut, "cls": "truncation-identity"}));
+                    ops.push(st_read(ty, *c, "truncation-identity"));
+                    ops.push(st("reset"));
+                }
                 ops.push(st_write(ty, rand_value(&mut r, &vals, ty), *c, "truncation"));
                 ops.push(json!({"op": "st", "fn": "flip", "trunc": cut, "cls": "truncation"}));
                 ops.push(st_read(ty, *c, "truncation"));
@@ -377,6 +390,19 @@ pub fn wl_c19(seed: u64, tier: &str) -> Vec<Vec<Value>> {
             }
             sessions.push(ops);
         }
+    }
+    // readers that return short reads: round trips must be unaffected
+    for chunk in [1u64, 7, 10, 47, 48, 100].iter() {
+        let mut ops = vec![st("reset")];
+        let items: Vec<(&str, bool)> = types.iter().map(|t| (*t, chunk % 2 == 0)).collect();
+        for (ty, c) in &items {
+            ops.push(st_write(ty, rand_value(&mut r, &vals, ty), *c, "short-reads"));
+        }
+        ops.push(json!({"op": "st", "fn": "flip", "cls": "short-reads"}));
+        for (ty, c) in &items {
+            ops.push(json!({"op": "st", "fn": "read", "ty": ty, "c": c, "chunk": chunk, "cls": "short-reads"}));
+        }
+        sessions.push(ops);
     }
     // flag mismatch in both directions, projective vs affine writers, wrong type of reader
     {
